@@ -490,6 +490,13 @@ func Main[C any](t *testing.T, spec Spec[C]) {
 			exitCode = 1
 		}
 	}()
+	if t.Failed() {
+		// only the race detector marks a test failed behind the check's back (testing.checkRaces): a report that no
+		// judged case claimed through RaceDelta. It is not attributable to a case, so it is never a VIOLATION.
+		say("INCONCLUSIVE the test was marked failed outside a judged case before the generated search started (race detector report: %.600q)", RaceDelta())
+		exitCode = 2
+		return
+	}
 	rapid.Check(t, func(rt *rapid.T) {
 		c := spec.Gen(rt)
 		js, _ := json.Marshal(c)
